@@ -31,6 +31,7 @@ def run(ctx):
     ctx.each(r20i, ctx, repo)
     ctx.each(r20j, ctx, repo)
     ctx.each(r20l, ctx, repo)
+    ctx.each(r20m, ctx, repo)
     ctx.each(flowalg.accumulator_rule, ctx, repo, "R20h", [("model", "Population.popsize")], 2, "the population size used as aggregation weight")
     # formula outputs (`{'name': 'expr'}`) read compartments through __getitem__ with an array of time indices: the accessors must keep the time axis
     from .c01 import r01g
@@ -609,3 +610,29 @@ def r20l(ctx, repo):
     app = [c for c in ast.walk(lp) if isinstance(c, ast.Call) and ast.unparse(c.func) == "%s.append" % out]
     oka = len(app) == 1 and x in ast.unparse(app[0].args[0]) and B.equivalent(B.cond(branch_guards(enclosing_stmt(app[0]), stop=lp)), B.parse_cond("not (%s in %s.characs.index)" % (x, me)))
     ctx.check(oka, "R20l", fi, enclosing_stmt(app[0]) if app else lp, "a compartment is kept as it is", "get_charac_includes does not append the name itself exactly for the names that are not characteristics", stmt_text="expand:leaf")
+
+
+def r20m(ctx, repo):
+    ctx.rule("R20m", "a flow requested by name is the sum over *all* links of that name, before and after a result is saved, loaded or copied: Population.relink rebuilds link_lookup by grouping every link of the population under its name (`{name: [link for link in self.links if link.name == name] ...}`), which is what Link.create builds incrementally (append to the existing list, or start a new one); a lookup rebuilt from anything narrower (one list per parameter, the last link of a name) changes what PlotData reports for the same result after a round trip")
+    fi = repo.func("model", "Population.relink")
+    me = fi.params[0]
+    st = [s_ for s_ in own_nodes(fi.node) if isinstance(s_, ast.Assign) and ast.unparse(s_.targets[0]) == "%s.link_lookup" % me]
+    ok = len(st) == 1 and isinstance(st[0].value, ast.DictComp)
+    if ok:
+        dc = st[0].value
+        name = ast.unparse(dc.key)
+        v = dc.value
+        ok = isinstance(v, ast.ListComp) and ast.unparse(v.generators[0].iter) == "%s.links" % me and len(v.generators[0].ifs) == 1 and ast.unparse(v.elt) == ast.unparse(v.generators[0].target)
+        if ok:
+            t = v.generators[0].target.id
+            c = v.generators[0].ifs[0]
+            ok = isinstance(c, ast.Compare) and isinstance(c.ops[0], ast.Eq) and sorted([ast.unparse(c.left), ast.unparse(c.comparators[0])]) == sorted(["%s.name" % t, name])
+            src = dc.generators[0].iter
+            if isinstance(src, ast.Name):
+                ds = [d for d in own_nodes(fi.node) if isinstance(d, ast.Assign) and astq.is_name(d.targets[0], src.id)]
+                ok = ok and len(ds) == 1 and ("%s.links" % me) in ast.unparse(ds[0].value) and ".name" in ast.unparse(ds[0].value)
+    ctx.check(ok, "R20m", fi, st[0] if st else fi.node, "link_lookup groups every link under its name", "Population.relink does not rebuild `link_lookup` as {name: [every link of self.links with that name]}: after a save / load / copy a flow requested by parameter name no longer sums all its links", stmt_text="link_lookup-rebuild")
+    lc = repo.func("model", "Link.create")
+    app = [c for c in ast.walk(lc.node) if isinstance(c, ast.Call) and isinstance(c.func, ast.Attribute) and c.func.attr == "append" and "link_lookup[" in ast.unparse(c.func.value)]
+    new = [s_ for s_ in own_nodes(lc.node) if isinstance(s_, ast.Assign) and "link_lookup[" in ast.unparse(s_.targets[0]) and isinstance(s_.value, ast.List) and len(s_.value.elts) == 1]
+    ctx.check(len(app) == 1 and len(new) == 1, "R20m", lc, enclosing_stmt(app[0]) if app else lc.node, "Link.create registers every link under its name", "Link.create no longer appends the new link to `pop.link_lookup[name]` (or starts the list with it)", stmt_text="link_lookup-create")
